@@ -1,4 +1,5 @@
 import ModbusModel.Lemmas.RoundTrip
+import ModbusModel.Lemmas.Wf
 /-
   C08 – Only well-formed PDUs are accepted, and each decodes to its unique meaning.
 -/
@@ -100,6 +101,74 @@ theorem dec2_prefix_free {α} (f : UInt16 → UInt16 → α) (a b : Bytes) (x y 
   have hl := congrArg List.length hab
   simp only [List.length_append, List.length_cons, List.length_nil] at hl
   exact List.length_eq_zero_iff.mp (by omega)
+
+/-- **accept-iff (requests)**: a byte string is accepted as a request PDU exactly when it is
+    well-formed in the sense of `wfRequest` – a closed-form predicate that does not mention
+    the decoder: for 0x01–0x04, 0x06 four bytes follow; 0x05 additionally carries 0x0000 or
+    0xFF00; 0x0F: the bytes after the byte count are exactly that many, the quantity is covered
+    by them, and the PDU is ≤ 253 bytes; 0x10 / 0x17: byte count = 2 × quantity, exactly that
+    many bytes follow, ≤ 253 bytes; 0x11: nothing follows; 0x16: six bytes; any other code:
+    below 0x80 (raw custom data) -/
+theorem request_accept_iff (bs : Bytes) : (∃ r, decodeRequest bs = .ok r) ↔ wfRequest bs = true := by
+  rw [← decodeRequest_isOk]
+  cases h : decodeRequest bs <;> simp [Res.isOk]
+
+/-- **accept-iff (responses)**: likewise for response PDUs – 0x01/0x02: exactly byte-count bytes
+    follow; 0x03/0x04/0x17: the byte count is even and exactly that many bytes follow; 0x11:
+    byte count ≥ 2, run indicator 0x00 or 0xFF, byte count − 2 data bytes; all of these within
+    253 bytes; the fixed-size echoes as for requests; any other code: raw custom data -/
+theorem response_accept_iff (bs : Bytes) : (∃ r, decodeResponse bs = .ok r) ↔ wfResponse bs = true := by
+  rw [← decodeResponse_isOk]
+  cases h : decodeResponse bs <;> simp [Res.isOk]
+
+/-- **no accepted standard request PDU is a proper prefix of another** -/
+theorem request_prefix_free (fc : UInt8) (rest b : Bytes) (hm : fc ∈ modelledCodes)
+    (h1 : wfRequest (fc :: rest) = true) (h2 : wfRequest (fc :: rest ++ b) = true) : b = [] := by
+  have key : b.length = 0 := by
+    simp only [modelledCodes, List.mem_cons, List.mem_nil_iff, or_false] at hm
+    rcases hm with h | h | h | h | h | h | h | h | h | h | h <;> subst h
+    · simp [wfRequest] at h1 h2; omega
+    · simp [wfRequest] at h1 h2; omega
+    · rcases rest with _ | ⟨a, _ | ⟨b', _ | ⟨c, _ | ⟨d, _ | ⟨e, t⟩⟩⟩⟩⟩ <;> simp [wfRequest] at h1 h2
+      rcases b with _ | ⟨x, b⟩
+      · rfl
+      · simp [wfRequest] at h2
+    · rcases rest with _ | ⟨a, _ | ⟨b', _ | ⟨c, _ | ⟨d, _ | ⟨e, t⟩⟩⟩⟩⟩ <;> simp [wfRequest] at h1 h2
+      omega
+    · simp [wfRequest] at h1 h2; omega
+    · simp [wfRequest] at h1 h2; omega
+    · simp [wfRequest] at h1 h2; omega
+    · rcases rest with _ | ⟨a, _ | ⟨b', _ | ⟨c, _ | ⟨d, _ | ⟨e, t⟩⟩⟩⟩⟩ <;> simp [wfRequest] at h1 h2
+      omega
+    · simp [wfRequest] at h1 h2; simp [h1] at h2; simp [h2]
+    · simp [wfRequest] at h1 h2; omega
+    · rcases rest with _ | ⟨a, _ | ⟨b', _ | ⟨c, _ | ⟨d, _ | ⟨e, _ | ⟨f, _ | ⟨g, _ | ⟨h, _ | ⟨wc, t⟩⟩⟩⟩⟩⟩⟩⟩⟩ <;>
+        simp [wfRequest] at h1 h2
+      omega
+  exact List.length_eq_zero_iff.mp key
+
+/-- **no accepted standard response PDU is a proper prefix of another** -/
+theorem response_prefix_free (fc : UInt8) (rest b : Bytes) (hm : fc ∈ modelledCodes)
+    (h1 : wfResponse (fc :: rest) = true) (h2 : wfResponse (fc :: rest ++ b) = true) : b = [] := by
+  have key : b.length = 0 := by
+    simp only [modelledCodes, List.mem_cons, List.mem_nil_iff, or_false] at hm
+    rcases hm with h | h | h | h | h | h | h | h | h | h | h <;> subst h
+    · rcases rest with _ | ⟨a, t⟩ <;> simp [wfResponse] at h1 h2; omega
+    · rcases rest with _ | ⟨a, t⟩ <;> simp [wfResponse] at h1 h2; omega
+    · rcases rest with _ | ⟨a, _ | ⟨b', _ | ⟨c, _ | ⟨d, _ | ⟨e, t⟩⟩⟩⟩⟩ <;> simp [wfResponse] at h1 h2
+      rcases b with _ | ⟨x, b⟩
+      · rfl
+      · simp [wfResponse] at h2
+    · simp [wfResponse] at h1 h2; omega
+    · rcases rest with _ | ⟨a, t⟩ <;> simp [wfResponse] at h1 h2; omega
+    · rcases rest with _ | ⟨a, t⟩ <;> simp [wfResponse] at h1 h2; omega
+    · simp [wfResponse] at h1 h2; omega
+    · simp [wfResponse] at h1 h2; omega
+    · rcases rest with _ | ⟨a, _ | ⟨b', _ | ⟨c, t⟩⟩⟩ <;> simp [wfResponse] at h1 h2
+      omega
+    · simp [wfResponse] at h1 h2; omega
+    · rcases rest with _ | ⟨a, t⟩ <;> simp [wfResponse] at h1 h2; omega
+  exact List.length_eq_zero_iff.mp key
 
 -- the named boundary facts
 example : decodeRequest [0x05, 0, 1, 0xFF, 0x00] = .ok (.writeSingleCoil 1 true) := by decide
